@@ -82,6 +82,14 @@ func runC17(s *core.Sim, tier string) RunInfo {
 					s.Violate("sync-error", nil, "Sync: %v", err)
 					return
 				}
+				// the caller's own view right after Sync returned: every header it appended is readable
+				for h := r.from; h <= r.to; h++ {
+					x := w.Ch.At(h)
+					if g, err := w.St.Get(ctx, x.Hash()); err != nil || !simhdr.Equal(g, x) {
+						s.Violate("synced-unreadable", map[string]string{"by": "writer"}, "writer%d: Append(%d..%d) and Sync returned but Get(hash of %d)=%v,%v [%s; %v]", wi, r.from, r.to, h, g, err, w.cfg(), plan)
+						return
+					}
+				}
 				for h := r.from; h <= r.to; h++ {
 					setSynced(h)
 				}
